@@ -218,7 +218,7 @@ def progress_order(rep, mir, L):
             fn = mir.method(ty, 'Chain', 'draw')
         except KeyError as e:
             rep.unknown('C06 %s::draw not found' % chain, str(e)); continue
-        order = order_of_calls(fn)
+        order = order_of_calls(fn, mir)
         name = 'C06.b %s::draw builds Progress.tuning from is_tuning() after adapt()' % chain
         if order is None: rep.unknown(name, 'cannot locate adapt / is_tuning calls in the MIR'); continue
         rep.functions.add(fn.name)
@@ -228,7 +228,22 @@ def progress_order(rep, mir, L):
             rep.violated(name, 'progress_order.%s' % chain, '%s::draw reads is_tuning() before adapt(): with the one-step result "is_tuning() before adapt(d) <=> d <= num_tune" draw num_tune is still reported as tuning (num_tune + 1 tuning draws)' % chain,
                          model={'chain': chain, 'witness path': order['witness']}, native=native.run('mclmc_tuning', {'num_tune': 20}) if chain == 'MclmcChain' else None)
 
-def order_of_calls(fn):
+def _helper_reads_tuning(mir, fn, callee, depth=2):
+    """a private helper of the same source file (e.g. an extracted `fn progress(&self, ..)`) that itself calls is_tuning() counts as an is_tuning() site"""
+    import re as _re
+    if mir is None or depth == 0: return False
+    mm = _re.search(r'::([a-z_][a-z_0-9]*)(?:::<.*>)?$', callee); src = _re.search(r'src/[\w/]+\.rs', fn.name)
+    if not mm or not src or '::' not in callee or callee.startswith('<'): return False
+    for nm, g in mir.fns.items():
+        if nm.endswith('::' + mm.group(1)) and src.group(0) in nm and g is not fn:
+            try: g.parse()
+            except Exception: continue
+            for bb in g.blocks:
+                for st in g.stmts(bb):
+                    if st.kind == 'call' and (st.b.endswith('::is_tuning') or _helper_reads_tuning(mir, g, st.b, depth - 1)): return True
+    return False
+
+def order_of_calls(fn, mir=None):
     """CFG reachability over the real MIR: is there a path from entry to an is_tuning() call that does not pass an adapt() call?"""
     fn.parse(); adapt_bbs = set(); tun_bbs = set(); succ = {}
     for bb in fn.blocks:
@@ -237,7 +252,7 @@ def order_of_calls(fn):
         for st in sts:
             if st.kind == 'call':
                 if st.b.endswith('::adapt::<R>') or '::adapt::<' in st.b and 'AdaptStrategy' in st.b: adapt_bbs.add(bb)
-                if st.b.endswith('::is_tuning'): tun_bbs.add(bb)
+                if st.b.endswith('::is_tuning') or _helper_reads_tuning(mir, fn, st.b): tun_bbs.add(bb)
         if term is not None:
             if term.kind == 'goto': nxt = [term.a]
             elif term.kind == 'switch': nxt = [t for _, t in term.b] + ([term.c] if term.c is not None else [])
